@@ -1095,8 +1095,14 @@ def run_C13(ctx):
     trans = ctx.tlc_mc("MC_Mem", "MC_Mem_" + ctx.tier)
     rnd = random.Random(ctx.seed)
     cases = []
+    def wants_contig(steps, i):
+        # the regions in a row (0, 1, 5) are adjacent in the frontend's address space too whenever the history touches at least
+        # two of them and not region 4 (whose point is sharing region 0's range and, in half of the pools, its user address)
+        touched = {r for a in steps for r in (list(a.get("rids") or []) + [a.get("rid")]) if a.get("op") != "set_mem_table" or True}
+        touched = {r for a in steps for r in (list(a["rids"]) if a["op"] == "set_mem_table" else [a["rid"]])}
+        return (len(touched & {0, 1, 5}) >= 2 and 4 not in touched) or (i % 4 == 0 and 4 not in touched)
     for i, c in enumerate(trans):
-        contig = i % 2 == 0
+        contig = wants_contig(c["steps"], i)
         pool, G = mem_pool(rnd, contig)
         letters = [mem_letter(a, i + j) for j, a in enumerate(c["steps"])]
         steps = [MEM_NEG]
@@ -1119,7 +1125,7 @@ def run_C13(ctx):
     else:
         hist = random.Random(ctx.seed).sample(hist, min(len(hist), 40000))
     for i, c in enumerate(hist):
-        contig = i % 2 == 0
+        contig = wants_contig(c["steps"], i)
         pool, G = mem_pool(rnd, contig)
         letters = [mem_letter(a, i + j) for j, a in enumerate(c["steps"])]
         touched = sorted({r for lt in letters for r in (lt.get("rids") or [lt.get("rid")])})
